@@ -13,31 +13,43 @@ package tree
 //@ monitor BTree.rw
 //@   havoc self.t.bhas, self.t.bval
 //@   invariant #stored forall k int :: { self.t.bhas[k] } self.t.bhas[k] ==> self.t.bval[k] != nil
+// every operation works inside exactly one critical section of the tree's lock (counted by a ghost)
+//@ ghost sections int
 //@ pure bwf(b *BTree) bool = b != nil && b.t != nil && b.rw != nil && !held(b.rw)
 //@ pure others(b *BTree, k1 int, k2 int) bool = forall k int :: { b.t.bhas[k] } k != k1 && k != k2 ==> b.t.bhas[k] == old(b.t.bhas[k]) && b.t.bval[k] == old(b.t.bval[k])
 //
 //@ func BTree.Insert
 //@   requires bwf(b) && v != nil
+//@   atrelease sections = sections + 1
+//@   ensures #onesection sections == old(sections) + 1
 //@   atunlock #stored b.t.bhas[kid(v)] && b.t.bval[kid(v)] == v && others(b, kid(v), kid(v))
-//@   modifies btree.BTree.bhas, btree.BTree.bval
+//@   modifies btree.BTree.bhas, btree.BTree.bval, sections
 //@ func BTree.Update
 //@   requires bwf(b) && newV != nil
+//@   atrelease sections = sections + 1
+//@   ensures #onesection sections == old(sections) + 1
 //@   ensures #result result == cs(b.t.bhas[kid(oldV)])
 //@   atunlock #absent !old(b.t.bhas[kid(oldV)]) ==> b.t.bhas == old(b.t.bhas) && b.t.bval == old(b.t.bval)
 //@   atunlock #moved old(b.t.bhas[kid(oldV)]) ==> b.t.bhas[kid(newV)] && b.t.bval[kid(newV)] == newV && (kid(oldV) != kid(newV) ==> !b.t.bhas[kid(oldV)]) && others(b, kid(oldV), kid(newV))
-//@   modifies btree.BTree.bhas, btree.BTree.bval
+//@   modifies btree.BTree.bhas, btree.BTree.bval, sections
 //@ func BTree.UpdateOrInsert
 //@   requires bwf(b) && newV != nil
+//@   atrelease sections = sections + 1
+//@   ensures #onesection sections == old(sections) + 1
 //@   ensures #result result == cs(b.t.bhas[kid(oldV)])
 //@   atunlock #moved b.t.bhas[kid(newV)] && b.t.bval[kid(newV)] == newV && (kid(oldV) != kid(newV) ==> !b.t.bhas[kid(oldV)]) && others(b, kid(oldV), kid(newV))
-//@   modifies btree.BTree.bhas, btree.BTree.bval
+//@   modifies btree.BTree.bhas, btree.BTree.bval, sections
 //@ func BTree.Delete
 //@   requires bwf(b)
+//@   atrelease sections = sections + 1
+//@   ensures #onesection sections == old(sections) + 1
 //@   ensures #result result == cs(b.t.bhas[kid(k)])
 //@   atunlock #gone !b.t.bhas[kid(k)] && others(b, kid(k), kid(k))
-//@   modifies btree.BTree.bhas, btree.BTree.bval
+//@   modifies btree.BTree.bhas, btree.BTree.bval, sections
 //@ func BTree.Get
 //@   requires bwf(b)
+//@   atrelease sections = sections + 1
+//@   ensures #onesection sections == old(sections) + 1
 //@   ensures #value result == ite(cs(b.t.bhas[kid(k)]), cs(b.t.bval[kid(k)]), nil)
 //@   atunlock #readonly b.t.bhas == old(b.t.bhas) && b.t.bval == old(b.t.bval)
-//@   modifies btree.BTree.bhas, btree.BTree.bval
+//@   modifies btree.BTree.bhas, btree.BTree.bval, sections
